@@ -58,6 +58,9 @@ func partialRemovalAllowed(rel string, size int64, before map[string]fileInfo) (
 type c18Case struct {
 	Size    int      `json:"size"`
 	Hazards []string `json:"hazards"`
+	// BigRounds: grow in rounds of up to 3000 entries until close to the size
+	// (large logs), then in small rounds so that stale partials remain.
+	BigRounds bool `json:"big_rounds,omitempty"`
 	// Ahead: "" | "lock" (the process died right after the lock commit: no tile
 	// of the next tree on disk) | "lock+tiles" (lock commit and all tiles done,
 	// the checkpoint upload did not happen)
@@ -133,6 +136,23 @@ func TestC18Cleanup(t *testing.T) {
 		}
 		runC18Case(r, cc)
 	}
+	// the first level-1 full tile / level-2 partial (65 536 leaves); the first
+	// two cases also in the quick tier
+	{
+		for i, cc := range []*c18Case{
+			{Size: 65536 + 40, Seed: r.Seed*31 + 1},
+			{Size: 65536, Seed: r.Seed*31 + 2},
+			{Size: 65530, Seed: r.Seed*31 + 3, Ahead: "lock+tiles", AheadN: 30},
+			{Size: 65536 + 300, Seed: r.Seed*31 + 4, Hazards: []string{"tmp-in-partial", "partial-right-of-edge"}},
+		} {
+			if !mine(n+i) || (!thorough() && i >= 2) {
+				continue
+			}
+			cc.BigRounds = true
+			runC18Case(r, cc)
+			r.Count("cases_level1_boundary", 1)
+		}
+	}
 	if r.Counter("partials_removed") == 0 {
 		r.Inconcl("the tool never removed anything")
 	}
@@ -147,6 +167,13 @@ func runC18Case(r *Run, cc *c18Case) {
 	defer simAuto.Store(false)
 	d := newDiskLog(rng, dir, "verif.example/c18")
 	defer d.Close()
+	if cc.BigRounds {
+		for len(d.Truth) < cc.Size-700 {
+			if err := d.Grow(rng, min(cc.Size-700-len(d.Truth), 1000+rng.Intn(2000))); err != nil {
+				panic(err)
+			}
+		}
+	}
 	d.GrowTo(rng, cc.Size)
 	viol := func(id, f string, a ...any) { r.Violate(id, cc, f, a...) }
 	r.Eval(1)
